@@ -585,4 +585,96 @@ theorem append_spec (a : Basis K) (ha : WF a) (v : List K) (hv : v.length = a.np
 
 end
 
+/-! ## The constructor dispatch `fromInput` -/
+
+section
+variable {K : Type}
+
+theorem allVec_map (n : Nat) (vs : List (List K)) (h : ∀ v ∈ vs, v.length = n) :
+    allVec n (vs.map Mode.vec) = some vs := by
+  induction vs with
+  | nil => rfl
+  | cons v vs ih =>
+    have hv : v.length = n := h v (by simp)
+    simp [allVec, hv, ih (fun w hw => h w (by simp [hw]))]
+
+theorem allRow_map (n : Nat) (es : List (SCol K)) :
+    allRow n (es.map (Mode.sp 1 n)) = some es := by
+  induction es with
+  | nil => rfl
+  | cons e es ih => simp [allRow, ih]
+
+theorem allVec_sp (n nr nc : Nat) (e : SCol K) (l l' : List (Mode K)) :
+    allVec n (l ++ .sp nr nc e :: l') = none := by
+  induction l with
+  | nil => rfl
+  | cons a l ih =>
+    cases a with
+    | vec v => simp only [List.cons_append, allVec]; split <;> simp [ih]
+    | sp => rfl
+
+theorem allRow_vec (n : Nat) (v : List K) (l l' : List (Mode K)) :
+    allRow n (l ++ .vec v :: l') = none := by
+  induction l with
+  | nil => rfl
+  | cons a l ih =>
+    cases a with
+    | sp nr nc e => simp only [List.cons_append, allRow]; split <;> simp [ih]
+    | vec => rfl
+end
+
+section
+variable {K : Type} [AddCommMonoid K]
+
+theorem colEntry_map_const (l : SCol K) (i' i : Nat) :
+    colEntry (l.map fun p => (i', p.2)) i = if i' = i then (l.map (·.2)).sum else 0 := by
+  induction l with
+  | nil => simp [colEntry]
+  | cons p l ih =>
+    rw [List.map_cons, colEntry_cons, ih]
+    by_cases h : i' = i <;> simp [h]
+
+theorem colEntry_flatMap_range (N : Nat) (F : Nat → SCol K) (i : Nat) :
+    colEntry ((List.range N).flatMap fun i' => (F i').map fun p => (i', p.2)) i =
+      if i < N then ((F i).map (·.2)).sum else 0 := by
+  induction N with
+  | zero => simp [colEntry]
+  | succ N ih =>
+    rw [List.range_succ, List.flatMap_append, colEntry_append, ih]
+    simp only [List.flatMap_cons, List.flatMap_nil, List.append_nil]
+    rw [colEntry_map_const]
+    by_cases h1 : i < N
+    · have : N ≠ i := by omega
+      have h2 : i < N + 1 := by omega
+      simp [h1, h2, this]
+    · by_cases h2 : N = i
+      · subst h2; simp
+      · have : ¬ i < N + 1 := by omega
+        simp [h1, h2, this]
+
+/-- entry `(i, j)` of the CSC conversion of a CSR matrix given by its stored rows -/
+theorem ent_transposeRows (n m : Nat) (rows : List (SCol K)) (i j : Nat) (hi : i < rows.length) (hj : j < m) :
+    ent (.sparse n m (transposeRows m rows)) i j = colEntry (rows.getD i []) j := by
+  simp only [ent, transposeRows]
+  rw [getD_map_range _ _ _ _ hj]
+  rw [colEntry_flatMap_range rows.length (fun i' => (rows.getD i' []).filter fun p => p.1 == j) i]
+  simp [hi, colEntry]
+
+/-- entry `(i, j)` of a COO matrix: the sum of the values stored for that cell -/
+def cooEntry (row col : List Nat) (data : List K) (i j : Nat) : K :=
+  (((col.zip (row.zip data)).filter fun t => t.1 == j && t.2.1 == i).map (·.2.2)).sum
+
+theorem ent_cooCols (n m : Nat) (row col : List Nat) (data : List K) (i j : Nat) (hj : j < m) :
+    ent (.sparse n m (cooCols m row col data)) i j = cooEntry row col data i j := by
+  simp only [ent, cooCols, cooEntry]
+  rw [getD_map_range _ _ _ _ hj]
+  unfold colEntry
+  rw [List.filter_map, List.map_map, List.filter_filter]
+  congr 1
+  congr 1
+  apply List.filter_congr
+  intro t _
+  simp [Bool.and_comm]
+end
+
 end HcipyVerif.ModeBasis
